@@ -35,6 +35,16 @@ ASSUMPTIONS = [
     "'padding'), and A Q[:, :m] = Q H is checked on all m columns",
     "stopping at breakdown (upper bound of the step count, zero padding after breakdown) is asserted only when "
     "tol >= 1e3*eps(dtype); 'fewer steps than min(max_iters, n, KDim)' is always asserted",
+    "exact-breakdown family (attr exact=true): operators / start vectors with small integer entries for which TLC "
+    "computes the Arnoldi factorisation exactly over Q(i) and certifies that it is exact in binary floating point "
+    "(Krylov!ExactArnoldiOK: dyadic entries, perfect-square norms, zero residual exactly at KDim).  For these the "
+    "stop at KDim, the zero padding, finiteness and the factorisation itself (clause exact_oracle: Q, H equal TLC's "
+    "exact matrices) are asserted for EVERY tol >= 0, in particular tol = 0, in every dtype, single and batched; the "
+    "recorded loop must evaluate exactly MC_Krylov's test 'residual # 0' (Trace_LoopControl, field kd).  For exact "
+    "catalog cases without spectral witness the expected eigenvalues are those of TLC's exact H[:KDim, :KDim].  Beyond "
+    "the catalog (source=struct, n <= 200: permutations, diagonal, identity, nilpotent shift, block diagonal, complex "
+    "monomial; coordinate / constant dyadic starts) the same arithmetic argument holds by construction and KDim is "
+    "the orbit length / block size computed by an integer walk",
     "batched start vectors: buffers are shared, so the contract is steps = min(max_iters, n, max_b KDim_b); the "
     "relation, Hessenberg form, first column, span, orthonormality of the leading min(max_iters+1, KDim_b) columns "
     "and zero padding after the element's own exhaustion are checked per element (an element that goes on after its "
@@ -69,7 +79,7 @@ def steps_observed(H):
 
 
 def check_single(A, v, Qd, Hd, m, tol, dt, kdim, detectable, K=None, assert_count=True, assert_padding=True,
-                 steps=None, hs=None):
+                 steps=None, hs=None, X=None):
     """Property clauses on one (Q, H).  Returns list of (clause, detail, extra attrs).
     hs: reference residual norms h_(j+1,j), j = 1.. (random cases): the loop may legitimately stop at a step whose
     reference residual is within 100x of the threshold, and a breakdown counts as detectable only if the reference
@@ -201,6 +211,18 @@ def check_single(A, v, Qd, Hd, m, tol, dt, kdim, detectable, K=None, assert_coun
         if d > max(rt, 10 * tol) * sA:
             out.append(("relation", f"Krylov space exhausted after {s_exp} steps but H[{s_exp},{s_exp - 1}] = {kf.fmt(d)}",
                         {"which": "breakdown_residual", "orth_lost": orth_lost}))
+    # exact-breakdown family: the factorisation itself is known exactly (TLC: Krylov!ExactArnoldi)
+    if X is not None:
+        Qx, Hx = X
+        kx = Qx.shape[1]
+        sx = min(cap, kx)
+        qc = min(sx + 1, kx)
+        Qf = Qd.astype(np.complex128)
+        dq = float(np.abs(Qf[:, :qc] - Qx[:, :qc]).max())
+        dh = float(np.abs(Hfull[:sx + 1, :sx] - Hx[:sx + 1, :sx]).max())
+        if dq > rt or dh > rt * sA:
+            out.append(("exact_oracle", f"leading {qc} columns of Q / {sx} columns of H differ from the exact Arnoldi "
+                        f"factorisation by {kf.fmt(dq)} / {kf.fmt(dh)}", {}))
     # span
     if K is not None:
         stol = 50 * rt
@@ -264,11 +286,11 @@ def check_eigs(A, ev, Vd, m, tol, dt, want, etol_rel, s_exp):
 
 
 # ------------------------------------------------------------------------------------------------------
-def call_arnoldi(A_op, v, m, tol, n, tag, api="arnoldi"):
+def call_arnoldi(A_op, v, m, tol, n, tag, api="arnoldi", kd=0):
     from cola.linalg.decompositions.arnoldi import arnoldi
     from cola.linalg.decompositions.decompositions import Arnoldi
     rec = recorder()
-    rec.meta = {"alg": "arnoldi", "n": n, "m": m, "tol": tol, "tag": tag}
+    rec.meta = {"alg": "arnoldi", "n": n, "m": m, "tol": tol, "tag": tag, "kd": kd}
     rec.on = True
     k0 = len(rec.traces)
     try:
@@ -300,7 +322,7 @@ def mk_viol(item, clause, detail, m, extra, n, kdim, batched, api, dt, tol):
     cap = min(m, n)
     at = {"dtype": dt, "n": n, "max_iters": m, "regime": regime(m, n), "tol": tol,
           "breakdown": bool(kdim is not None and kdim < cap), "batched": batched, "kdim": kdim, "api": api,
-          "source": item["src"]}
+          "source": item["src"], "exact": bool(item.get("exact"))}
     at.update(extra)
     case = f"{item['name']} {dt} m={m} tol={tol:g}{' batched' if batched else ''} {api}"
     rp = dict(item)
@@ -308,14 +330,18 @@ def mk_viol(item, clause, detail, m, extra, n, kdim, batched, api, dt, tol):
     return Violation(PROP, clause, case, at, detail, replay=rp)
 
 
-def run_family(item, A, vs, kdims, Ks, wants, etol_rel, detect_ok, ms, hss=None):
+def run_family(item, A, vs, kdims, Ks, wants, etol_rel, detect_ok, ms, hss=None, Xs=None):
     """vs: start vectors (1 = single run, >1 = one batched run).  wants[b]: expected eigenvalue multiset of
-    arnoldi_eigs with >= n steps (None: not asserted)."""
+    arnoldi_eigs with >= n steps (None: not asserted).  Xs[b]: exact (Q, H) of the exact-breakdown family."""
     import cola
     dt, tol = item["dt"], item["tol"]
     n = A.shape[0]
     rt, eps = kf.tol_of(dt)
-    detectable = detect_ok and tol >= 1e3 * eps
+    exact = bool(item.get("exact"))
+    # exact-breakdown family: the residual at KDim is the number 0.0, so the stop is visible for every tol >= 0
+    detectable = detect_ok and (tol >= 1e3 * eps or exact)
+    kd_tr = max(kdims) if exact else 0
+    Xs = list(Xs) if Xs is not None else [None] * len(vs)
     npd = kf.NPDT[dt]
     if not np.issubdtype(npd, np.complexfloating):
         A, vs = np.real(A), [np.real(x) for x in vs]
@@ -329,6 +355,9 @@ def run_family(item, A, vs, kdims, Ks, wants, etol_rel, detect_ok, ms, hss=None)
     hss = []
     Ks = list(Ks)
     for b, x in enumerate(vs):
+        if exact:       # nothing to gate: every quantity of the run is an exact floating-point number
+            hss.append(None)
+            continue
         Kr, hs = kf.ref_for(A_t, x.astype(npd), kdims[b], n, jmax, thr * item.get("thr_scale", 1.0), detect_ok)
         hss.append(hs if kdims[b] is not None else None)
         if Ks[b] is None:
@@ -340,11 +369,11 @@ def run_family(item, A, vs, kdims, Ks, wants, etol_rel, detect_ok, ms, hss=None)
         try:
             if not batched:
                 v = vs[0].astype(npd)
-                Q, H, info, tr = call_arnoldi(A_op, v, m, tol, n, tag)
+                Q, H, info, tr = call_arnoldi(A_op, v, m, tol, n, tag, kd=kd_tr)
                 traces += tr
                 Qd, Hd = np.asarray(Q.to_dense()), np.asarray(H.to_dense())
                 res = check_single(A_t, v, Qd, Hd, m, tol, dt, kdims[0], detectable, Ks[0],
-                                   steps=tr[0]["fin"]["steps"] if len(tr) == 1 else None, hs=hss[0])
+                                   steps=tr[0]["fin"]["steps"] if len(tr) == 1 else None, hs=hss[0], X=Xs[0])
                 if not isinstance(res, tuple):
                     res = (res, True)
                 res, count_bad = res
@@ -353,7 +382,7 @@ def run_family(item, A, vs, kdims, Ks, wants, etol_rel, detect_ok, ms, hss=None)
                     viol.append(mk_viol(item, cl, de, m, ex, n, kdims[0], False, "arnoldi", dt, tol))
                 if m > n:
                     if run_n is None:
-                        Qn, Hn, _, trn = call_arnoldi(A_op, v, n, tol, n, f"{item['name']}|{dt}|{n}")
+                        Qn, Hn, _, trn = call_arnoldi(A_op, v, n, tol, n, f"{item['name']}|{dt}|{n}", kd=kd_tr)
                         traces += trn
                         run_n = (np.asarray(Qn.to_dense()), np.asarray(Hn.to_dense()))
                     msg = check_same_as_n(Qd, Hd, run_n[0], run_n[1], n, m)
@@ -368,7 +397,7 @@ def run_family(item, A, vs, kdims, Ks, wants, etol_rel, detect_ok, ms, hss=None)
                         for cl, de, ex in check_eigs(A_t, ev, Vd, m, tol, dt, wants[0], etol_rel, s_exp):
                             viol.append(mk_viol(item, cl, de, m, ex, n, kdims[0], False, "arnoldi_eigs", dt, tol))
                 if item.get("alg_obj", False):
-                    Q2, H2, _, tr3 = call_arnoldi(A_op, v, m, tol, n, tag + "|obj", api="Arnoldi")
+                    Q2, H2, _, tr3 = call_arnoldi(A_op, v, m, tol, n, tag + "|obj", api="Arnoldi", kd=kd_tr)
                     traces += tr3
                     nchk += 1
                     Q2d, H2d = np.asarray(Q2.to_dense()), np.asarray(H2.to_dense())
@@ -379,7 +408,7 @@ def run_family(item, A, vs, kdims, Ks, wants, etol_rel, detect_ok, ms, hss=None)
                                             "Arnoldi", dt, tol))
             else:
                 V = np.stack([x.astype(npd) for x in vs], axis=1)      # (n, b)
-                Q, H, info, tr = call_arnoldi(A_op, V, m, tol, n, tag + "|batched")
+                Q, H, info, tr = call_arnoldi(A_op, V, m, tol, n, tag + "|batched", kd=kd_tr)
                 traces += tr
                 QA, HA = np.asarray(Q.A), np.asarray(H.A)
                 nb = len(vs)
@@ -408,7 +437,7 @@ def run_family(item, A, vs, kdims, Ks, wants, etol_rel, detect_ok, ms, hss=None)
                                             "arnoldi", dt, tol))
                 for b in range(nb):
                     res = check_single(A_t, V[:, b], QA[b], HA[b], m, tol, dt, kdims[b], detectable, Ks[b],
-                                       assert_count=False, assert_padding=True, steps=None, hs=hss[b])
+                                       assert_count=False, assert_padding=True, steps=None, hs=hss[b], X=Xs[b])
                     res = res[0] if isinstance(res, tuple) else res
                     for cl, de, ex in res:
                         ex = dict(ex)
@@ -433,11 +462,17 @@ def observe(item):
             kd = [c["exp"]["kdim"] for c in cs]
             Ks = [kf.to_np(c["exp"]["K"], np.complex128) for c in cs]
             wants = []
-            for c in cs:
+            exact = bool(item.get("exact"))
+            Xs = [kf.exact_np(c["exp"]) for c in cs] if exact else None
+            for b, c in enumerate(cs):
+                assert not exact or (c["exact"] and c["exp"]["exact"] and Xs[b][0].shape == (n, c["exp"]["kdim"]))
                 for e in c["exp"]["exp"]:   # the counts asserted below are TLC's
                     assert e["asteps"] == min(e["m"], n, c["exp"]["kdim"]) and e["aortho"] == min(e["m"] + 1, c["exp"]["kdim"])
                     assert e["aq"] == [n, e["m"] + 1] and e["ah"] == [e["m"] + 1, e["m"]]
-                if not c["hasEig"]:
+                if not c["hasEig"] and exact:
+                    # excited spectrum = spectrum of TLC's exact projected matrix H[:KDim, :KDim] (all of A's if KDim = n)
+                    wants.append([complex(x) for x in np.linalg.eigvals(Xs[b][1][:-1, :])])
+                elif not c["hasEig"]:
                     wants.append(None)
                 elif c["exp"]["kdim"] == n:
                     wants.append(kf.spec_list(c["exp"]["full"]))
@@ -446,12 +481,24 @@ def observe(item):
             rt, eps = kf.tol_of(item["dt"])
             jordan = any(s == 1 for s in cs[0]["sup"])
             etol_rel = max(rt, 50 * np.sqrt(eps)) if jordan else max(rt, 10 * item["tol"])
-            return run_family(item, A, vs, kd, Ks, wants, etol_rel, True, list(range(1, n + kf.EXTRA + 1)))
+            return run_family(item, A, vs, kd, Ks, wants, etol_rel, True, list(range(1, n + kf.EXTRA + 1)), Xs=Xs)
+        if item["src"] == "struct":
+            return observe_struct(item)
         return observe_random(item)
     except Exception as ex:  # noqa: BLE001
         info = common.exc_info(ex)
         return [Violation(PROP, "exception", item["name"], {"exc": info["exc"], "source": item["src"], "dtype": item["dt"]},
                           f"driver: {info['exc']}: {info['msg']} @ {info['where']}", replay=item)], [], 0
+
+
+def observe_struct(item):
+    """Exact-breakdown family beyond the TLC catalog (n up to 200): monomial operators A e_j = w_j e_p[j] (permutations,
+    diagonal, identity, nilpotent shifts, scaled / complex monomial matrices) and block-diagonal operators, started
+    from coordinate vectors (or a constant dyadic vector on a cycle); KDim by construction (kf.struct_case)."""
+    A, vs, kdims, wants = kf.struct_case(item)
+    rt, _ = kf.tol_of(item["dt"])
+    nb = len(vs)
+    return run_family(item, A, vs, kdims, [None] * nb, wants, max(rt, 10 * item["tol"]), True, item["ms"])
 
 
 def observe_random(item):
@@ -553,6 +600,55 @@ def default_object_check(seed):
 
 
 # ------------------------------------------------------------------------------------------------------
+def plan_exact(mat, lst, real, quick):
+    """Exact-breakdown family (TLC catalog): every dtype with tol = 0 ("never stop early"), a positive tol (quick tier:
+    first and last dtype only), single runs, batches of equal KDim and mixed batches; max_iters = 1..n+3 lies below /
+    at / above KDim."""
+    items = []
+    for c in lst:
+        dts = ["f64", "f32", "c128", "c64"] if c["real"] else ["c128", "c64"]
+        for dt in dts:
+            for k, tol in enumerate([0.0, 1e-7 if dt in ("f64", "c128") else 1e-3]):
+                if quick and k == 1 and dt not in (dts[0], dts[-1]):
+                    continue
+                items.append({"src": "catalog", "name": c["name"], "cases": [c], "dt": dt, "tol": tol, "exact": True,
+                              "alg_obj": k == 0 and (not quick or dt == dts[0]), "eigs": True})
+    groups = {}
+    for c in lst:
+        groups.setdefault(c["exp"]["kdim"], []).append(c)
+    for dt in (["f64", "c64"] if real else ["c128"]):
+        for tol in (0.0, 1e-7 if dt != "c64" else 1e-3):
+            for kd, g in groups.items():
+                if len(g) >= 2:
+                    items.append({"src": "catalog", "name": f"{mat}:batch-kdim{kd}", "cases": g[:4], "dt": dt, "tol": tol,
+                                  "exact": True})
+            if len(groups) >= 2:
+                items.append({"src": "catalog", "name": f"{mat}:batch-mixed", "cases": lst[:5], "dt": dt, "tol": tol,
+                              "exact": True})
+    return items
+
+
+def plan_struct(quick):
+    """Exact-breakdown family beyond the catalog: see kf.struct_case (quick tier: the positive tol in the first dtype
+    only)."""
+    items = []
+    for spec in kf.struct_specs():
+        n, kds = spec["n"], spec["kdims"]
+        ms = set()
+        for kd in kds:
+            ms |= {kd - 1, kd, kd + 1}
+        ms = sorted(x for x in ms | {1, n - 1, n, n + 3} if 1 <= x <= n + 3)
+        for dt in spec["dts"]:
+            for k, tol in enumerate([0.0, 1e-7 if dt in ("f64", "c128") else 1e-3]):
+                if quick and k == 1 and dt != spec["dts"][0]:
+                    continue
+                it = dict(spec)
+                it.update({"src": "struct", "dt": dt, "tol": tol, "ms": ms, "exact": True, "alg_obj": k == 0 and n <= 16,
+                           "eigs": n <= 64})
+                items.append(it)
+    return items
+
+
 def plan(cs, tier, seed):
     items = []
     quick = tier == "quick"
@@ -561,6 +657,9 @@ def plan(cs, tier, seed):
         by_mat.setdefault(c["name"].split(":")[0], []).append(c)
     for mat, lst in by_mat.items():
         real = all(c["real"] for c in lst)
+        if lst[0].get("exact"):
+            items += plan_exact(mat, lst, real, quick)
+            continue
         for c in lst:
             dts = (["f64", "f32", "c128", "c64"] if c["real"] else ["c128", "c64"])
             if quick and c["herm"]:
@@ -622,6 +721,7 @@ def plan(cs, tier, seed):
                 items.append({"src": "random", "name": f"rand-batch-{'c' if cplx else 'r'}-n{n}-{vk}",
                               "seed": int(rng.randint(1 << 30)), "n": n, "kind": "dense" if vk == "generic" else "normal",
                               "cplx": cplx, "vkind": vk, "k": 3, "dt": dt, "tol": 1e-7, "ms": ms, "batch": 3})
+    items += plan_struct(quick)
     # float32 Hermitian runs to the very end: where a single Gram-Schmidt pass loses orthogonality (regression guard
     # for the DGKS correction, fix ab60504)
     for n in (16, 64):
@@ -651,12 +751,8 @@ def run(tier):
         traces += dt_
         nchk += dk
         cap_tr = 6000 if tier == "quick" else 40000
-        if len(traces) > cap_tr:
-            step = len(traces) / cap_tr
-            traces_v = [traces[int(i * step)] for i in range(cap_tr)]
-        else:
-            traces_v = traces
-        keys = ("alg", "n", "m", "mb", "b", "evs", "buf", "fin")
+        traces_v = kf.select_traces(traces, cap_tr)
+        keys = kf.TRACE_KEYS
         verdicts, tres, neg = kf.validate_traces(PROP, wd, [{k: t[k] for k in keys} for t in traces_v])
         for k, t in enumerate(traces_v, start=1):
             vd = verdicts[k]
@@ -665,7 +761,8 @@ def run(tier):
                 n = t["n"]
                 viol.append(Violation(PROP, "control", f"{t['tag']}",
                                       {"dtype": dt, "n": n, "max_iters": t["m"], "regime": regime(t["m"], n),
-                                       "batched": t["b"] > 1, "trace_clause": vd["clause"], "api": "arnoldi_fact"},
+                                       "batched": t["b"] > 1, "trace_clause": vd["clause"], "api": "arnoldi_fact",
+                                       "tol": t.get("tol"), "exact": t["kd"] > 0},
                                       f"recorded loop execution rejected by Trace_LoopControl at event {vd['at']}: "
                                       f"{vd['clause']} (events {t['evs'][-3:]}, fin {t['fin']})",
                                       replay={"trace": {k2: t[k2] for k2 in keys}}))
@@ -682,7 +779,13 @@ def run(tier):
                 "distinct = (matrix, start vector(s), dtype, tol) work items, each swept over max_iters",
         "samples": samples, "exhaustive": False,
         "catalog_cases": stats["catalog_cases"], "catalog_items": len(cat_items),
-        "random_items": len(items) - len(cat_items),
+        "random_items": len([it for it in items if it["src"] == "random"]),
+        "exact_breakdown_catalog_cases": len([c for c in cs if c.get("exact")]),
+        "exact_breakdown_items": len([it for it in items if it.get("exact")]),
+        "exact_breakdown_items_tol0": len([it for it in items if it.get("exact") and it["tol"] == 0]),
+        "exact_breakdown_struct_items": len([it for it in items if it["src"] == "struct"]),
+        "exact_traces_validated": len([t for t in traces_v if t.get("kd", 0) > 0]),
+        "exact_traces_validated_tol0": len([t for t in traces_v if t.get("kd", 0) > 0 and t.get("tol") == 0]),
         "mc_krylov_states": stats["mc_krylov_states"], "mc_loopcontrol_states": stats["mc_loopcontrol_states"],
         "violations_before_dedup_cap": n_viol_raw, "trace_states": tres.distinct, "traces_recorded": len(traces), "negative_controls_rejected": neg,
         "tlc_wall_s": stats["tlc_wall_s"] + round(tres.wall, 1),
